@@ -60,7 +60,10 @@ RtVariants(c) ==
     \cup {[cls |-> c, kind |-> "child", which |-> Children(c)[k].member, n |-> n] :
              k \in {j \in 1..Len(Children(c)) : Children(c)[j].cls \in Classes}, n \in 1..3}
     \cup {[cls |-> c, kind |-> "allchildren", which |-> "", n |-> 1]}
-    \cup {[cls |-> c, kind |-> x, which |-> "", n |-> 1] : x \in {"foreign_child", "foreign_attr", "text_special", "text_unicode", "text_layout"}}
+    \cup {[cls |-> c, kind |-> x, which |-> "", n |-> 1] : x \in {"foreign_child", "foreign_attr", "text_special", "text_unicode", "text_layout",
+                                                                            \* a child the class does not know in the class's *own* namespace; a foreign child that
+                                                                            \* itself holds an ordered sequence of children and grandchildren
+                                                                            "foreign_ownns_child", "foreign_nested"}}
     \* a tree three levels deep: every declared attribute and child at every level (lists with two members), a foreign
     \* child and a foreign attribute at every level
     \cup {[cls |-> c, kind |-> "deep", which |-> "", n |-> 3]}
